@@ -139,6 +139,10 @@ pub struct BlockSpec {
     /// Content lines after the nested blocks.
     #[serde(default)]
     pub tail: Vec<String>,
+    /// A block without any content whose start and end tag share ONE comment
+    /// (`# <block name="x"> </block>`). Ignored when the block has content or nested blocks.
+    #[serde(default)]
+    pub one_comment: bool,
 }
 
 impl BlockSpec {
@@ -662,6 +666,21 @@ fn render_block(
     } else {
         idx_path.iter().fold(spelling, |a, i| crate::rng::mix_n(a, *i as u64 + 1)) | 1
     };
+    if b.one_comment && b.lines.is_empty() && b.children.is_empty() && b.tail.is_empty() {
+        let tag = render_start_tag_laid_out(b, if tab_tags { '\t' } else { ' ' }, spell, false);
+        let gap = if spell % 3 == 0 { "" } else { " " };
+        lines.push(comment(leader, block_comments, lines.len(), &format!("{tag}{gap}{}", render_end_tag_spelled(spell))));
+        out.push(BlockLayout {
+            path: idx_path.clone(),
+            start_line,
+            end_line: start_line,
+            content: String::new(),
+            attrs: b.attrs.clone(),
+            has_children: false,
+            tag_lines: 1,
+        });
+        return;
+    }
     let multiline = spell != 0
         && comment_is_block(leader, block_comments, lines.len())
         && crate::rng::mix_n(spell, 5) % 2 == 0;
